@@ -58,7 +58,10 @@ class Agg:
 
     def body(s):
         out = []
-        for f in s.fields:
+        nm = dict(getattr(s, 'nonmembers', ()))
+        for i, f in enumerate(s.fields):
+            if i in nm:
+                out.append(nm[i])
             al = '_Alignas(%d) ' % f.alignas if f.alignas else ''
             if f.bf is not None:
                 out.append('%s %s: %d;' % (f.bf_base[0], f.name or '', f.bf))
@@ -68,6 +71,8 @@ class Agg:
                                                   f.ty.attrs() if f.ty.attr_after else '', '' if f.anon else ' ' + f.name))
             else:
                 out.append(al + f.ty.decl(f.name) + ';')
+        if len(s.fields) in nm:
+            out.append(nm[len(s.fields)])
         return ' '.join(out)
 
     def ref(s):
@@ -179,7 +184,15 @@ class TGen:
             self.feat.add('aligned')
         if kind == 'union':
             self.feat.add('union')
-        return Agg(kind, tag, fields, packed, aligned, attr_after=ch.bool())
+        a = Agg(kind, tag, fields, packed, aligned, attr_after=ch.bool())
+        if ch.int(0, 7) == 0:
+            # a declaration in the member list that declares a tag and no member (C11 6.7.2.1p13 makes only an *untagged* specifier an anonymous member)
+            self.ntag += 1
+            form = ch.choice(['struct @NM%d { int q; };', 'const struct @NM%d { char z; long w; };', 'struct __attribute__((packed)) @NM%d { char a; int b; };',
+                              'union @NM%d { long double l; char c; };', 'volatile union @NM%d { int i; };', 'struct @NM%d;'])
+            a.nonmembers = [(ch.int(0, len(fields)), form % (self.ntag + 100 * len(pref)))]
+            self.feat.add('tag-declaration-in-member-list')
+        return a
 
 
 def leaves(ty, path='', unions=()):
